@@ -458,6 +458,10 @@ static void run_cmd(const sim::Cmd &c, sim::Out &out)
     sig = sim::fnv64(op.text(), sig);
   std::string status = "OK";
   std::string ended = "";
+  { // what fresh heap blocks hold is part of the simulated environment too: zero, 0xff, 0x5a or whatever was there before
+    static const int fills[] = {-1, 0x00, 0xff, 0x5a};
+    sim::layout::set_poison(static_cast<int>(c.num("poison", fills[sim::Rng(seed).derive("poison").below(4)])));
+  }
   sim::layout::start(sim::mix64(seed * 1000003ULL + layout), layout != 0, 0);
   sim.s = new ratio::solver();
   sim.fl = new Listener(*sim.s);
